@@ -539,6 +539,60 @@ pub fn tlv_structured_universe(thorough: bool) -> ListUniverse {
             cases.push(sec);
         }
     }
+    // sections that are protocol artefacts themselves: a complete v2 header (every valid control pair, with its address
+    // block, with and without an inner TLV), bare and padded to the 3 + 0x0A0D bytes that make it one well-formed item
+    // of type 0x0D (the signature read as a TLV head); the signature alone and cut; a v1 line.  A constructor or view
+    // that "recognises" a header where a section is expected shows up here.
+    {
+        let mut arte: Vec<Vec<u8>> = Vec::new();
+        for vc in [0x20u8, 0x21] {
+            for fam in 0..4u8 {
+                for proto in 0..3u8 {
+                    let size = [0usize, 12, 36, 216][fam as usize];
+                    for inner in [&[][..], &[4u8, 0, 1, 7][..]] {
+                        let mut h = SIG.to_vec();
+                        h.push(vc);
+                        h.push((fam << 4) | proto);
+                        let total = size + inner.len();
+                        h.push((total >> 8) as u8);
+                        h.push(total as u8);
+                        h.extend((0..size).map(pattern));
+                        h.extend_from_slice(inner);
+                        arte.push(h);
+                    }
+                }
+            }
+        }
+        for h in baseline_headers() {
+            arte.push(h);
+        }
+        for k in 10..=16usize {
+            let mut h = SIG.to_vec();
+            h.extend_from_slice(&[0x21, 0x11, 0, 12]);
+            h.truncate(k);
+            arte.push(h);
+        }
+        arte.push(b"PROXY TCP4 127.0.0.1 192.168.1.1 80 443\r\n".to_vec());
+        arte.push(b"PROXY UNKNOWN\r\n".to_vec());
+        for a in arte {
+            cases.push(a.clone());
+            let mut t = a.clone();
+            t.extend_from_slice(&[5, 0, 2, 8, 9]);
+            cases.push(t);
+            if a.len() >= 3 && a.len() <= 3 + 0x0a0d {
+                let mut whole = a.clone();
+                let declared = 3 + (((a[1] as usize) << 8) | a[2] as usize);
+                if declared >= whole.len() && declared <= 4096 {
+                    while whole.len() < declared {
+                        whole.push(pattern(whole.len()));
+                    }
+                    cases.push(whole.clone());
+                    whole.extend_from_slice(&[4, 0, 0]);
+                    cases.push(whole);
+                }
+            }
+        }
+    }
     // the one nested structure of the specification: PP2_TYPE_SSL = client(1) verify(4) followed by sub-TLVs 0x21..=0x25
     let subs: Vec<Vec<u8>> = vec![vec![], vec![0x21, 0, 0], vec![0x21, 0, 2, b'1', b'3'], vec![0x22, 0, 1, b'x'], vec![0x25, 0, 0], vec![0x26, 0, 0], vec![0x21, 0, 9, 1]];
     for a in &subs {
